@@ -116,6 +116,14 @@ Proof.
 Qed.
 Print Assumptions C34_sizev2_roundtrip_partial.
 
+(** Overflow on the float path, bare numbers: every decimal number at or above 2^64 (any
+    length) is REJECTED by SizeV2 — rounding to float64 never brings it back into range, so
+    nothing wraps.  (Partial: with a unit the product is rounded twice; not proved there.) *)
+Theorem C34_sizev2_overflow_rejected_partial :
+  forall n, 2 ^ 64 <= n -> unmarshal TV2 (dec n) = None.
+Proof. exact sizev2_overflow_rejected. Qed.
+Print Assumptions C34_sizev2_overflow_rejected_partial.
+
 (** Through a TOML document a SizeV2 of 2^63 or more cannot be read back at all although it
     is exactly representable: the encoder writes a bare integer beyond TOML's int64.
     Confirmed on the real code (known finding sizev2-above-maxint64-unreadable-from-toml). *)
